@@ -451,3 +451,93 @@ def rand_nested_config(rng, delims):
         if rng.random() < 0.6:
             lines += [rng.choice(["  deep", " x", "y", "   z", " ! c", "", "    w"]) for _ in range(rng.choice([1, 2, 3]))]
     return lines
+
+
+# ------------------------------------------------------------------ parse options beyond syntax / factory / ignore_blank / delimiters
+# (added for the coverage streams of C01–C03, C07).  Optional case keys, none of them changes what the model is asked:
+#   "form"    "list" (default) | "tuple"        the accepted sequence types of CiscoConfParse(config=…)
+#   "debug"   int                                 the `debug` parse option (loguru is silenced; only `if debug` code runs)
+#   "aiw"     int                                 the `auto_indent_width` parse option (used by append_to_family only)
+#   "auto_commit" bool | None                     as in parse_impl
+OPTION_MENU = [
+    {"form": "tuple"}, {"debug": 1}, {"debug": 5}, {"auto_commit": False}, {"aiw": 3}, {"aiw": 0},
+    {"form": "tuple", "debug": 2, "auto_commit": False}, {"debug": 4, "aiw": 8},
+]
+
+
+def rand_options(rng, p=0.25):
+    """{} with probability 1-p, else one entry of OPTION_MENU"""
+    return dict(rng.choice(OPTION_MENU)) if rng.random() < p else {}
+
+
+def with_options(case, opts):
+    """attach parse options to a case (the request line for the model is unchanged: the model has no such inputs)"""
+    if opts:
+        case["opts"] = dict(opts)
+    return case
+
+
+def parse_impl_opts(case):
+    quiet_ccp()
+    from ciscoconfparse2 import CiscoConfParse
+    opts = case.get("opts") or {}
+    kw = dict(syntax=case["syntax"], factory=case["factory"], ignore_blank_lines=case["ignore_blank"])
+    if case["delims"] is not None:
+        kw["comment_delimiters"] = list(case["delims"])
+    ac = opts.get("auto_commit", case.get("auto_commit"))
+    if ac is not None:
+        kw["auto_commit"] = ac
+    if "debug" in opts:
+        kw["debug"] = opts["debug"]
+    if "aiw" in opts:
+        kw["auto_indent_width"] = opts["aiw"]
+    lines = list(case["lines"])
+    return CiscoConfParse(tuple(lines) if opts.get("form") == "tuple" else lines, **kw)
+
+
+def run_impl_opts(case, dumper):
+    try:
+        p = parse_impl_opts(case)
+    except BaseException as e:  # noqa: BLE001
+        return "err:" + type(e).__name__
+    return dumper(p)
+
+
+def opt_buckets(case):
+    return ["opt:%s=%s" % kv for kv in sorted((case.get("opts") or {}).items())] or ["opt:none"]
+
+
+# lines the typed-model factory classes (config_line_factory) claim, well-formed and not: the first group is accepted by a
+# model, the second is rejected with an error by a model constructor (allowed by C01 with factory on), the third makes a
+# constructor raise something the factory swallows (the line falls back to the default class)
+FACTORY_LINES = {
+    "ios": ["ip route 10.0.0.0 255.0.0.0 1.1.1.1", "ip route vrf x 1.1.1.0 255.255.255.0 Null0", "ip route 0.0.0.0 0.0.0.0 Vlan1 name x",
+            "interface Serial1/0", " ip address 1.1.1.1 255.255.255.0", "line con 0", "line vty 0 4", "hostname R1",
+            "interface", "interface ", "ip route", " ip route 10.0.0.0 255.0.0.0 1.1.1.1",
+            "ip route junk", "ip route 1.1.1.1",
+            "ipv6 route ::/0 Null0"],
+    "nxos": ["vpc domain 1", "vpc domain", "interface Ethernet1/1", " switchport", "feature vpc", "line console", "hostname N1",
+             "interface"],
+    "iosxr": ["interface GigabitEthernet0/0/0/0", " ipv4 address 1.1.1.1 255.255.255.0", "interface", "hostname X1"],
+    "asa": ["access-list INSIDE extended permit ip any any", "name 1.1.1.1 foo", "object network X", " host 1.1.1.1",
+            "object-group network G", " network-object host 1.1.1.1", "object-group service S tcp", " port-object eq 80",
+            "hostname fw", "interface GigabitEthernet0/0", " nameif inside", "name", "object network",
+            "access-list x", "access-list junk junk", "name x y"],
+}
+
+
+def rand_factory_config(rng, syntax, delims):
+    out = []
+    for _ in range(rng.choice([1, 2, 3, 5, 8])):
+        r = rng.random()
+        if r < 0.6:
+            w = rng.choice(FACTORY_LINES[syntax])
+            out.append((rand_indent(rng) if rng.random() < 0.25 else "") + w + (rng.choice(TRAILERS) if rng.random() < 0.1 else ""))
+        else:
+            out.append(rand_plain_line(rng, delims))
+    return out
+
+
+# comment-delimiter sets beyond DELIM_SETS (any list of one-character strings is accepted by check_comment_delimiters):
+# a letter, a brace, a non-ASCII sign, white space (can never be the first non-blank character), duplicates, three at once
+EXOTIC_DELIM_SETS = [[";"], ["a"], ["i", "!"], ["{"], ["\u20ac"], ["\t"], [" ", "#"], ["!", "!"], ["!", ";", "#"], ["^"], ["@", "$"]]
